@@ -148,6 +148,7 @@ class Interp:
         it.ghost = self.ghost
         it.module_cache = self.module_cache
         it.loop_ordinals = self.loop_ordinals
+        it._target_mod = getattr(self, "_target_mod", None)
         return it
 
     def fresh(self, shape, name):
@@ -238,6 +239,12 @@ class Interp:
                 pass
         if name in self.reg.spec_names:
             return self.reg.spec_names[name]
+        tm = getattr(self, "_target_mod", None)
+        if mod is None and tm is not None:
+            try:
+                return self.module_value(tm, name)
+            except KeyError:
+                pass
         from . import lib
         b = lib.builtin(self, name)
         if b is not None:
